@@ -144,3 +144,14 @@ Proof.
   eapply Forall_impl; [|exact H]. intros p Hp. cbv beta in Hp.
   eapply Z.le_trans; [exact Hp|exact max_cookie_length_le_4096].
 Qed.
+
+(* ---- C09: what the browser and the server-side store are told about the lifetime ---- *)
+Lemma max_age_is_lifetime e : 0 < e -> max_age_of e = e / 1000000000.
+Proof. intro H. unfold max_age_of. destruct (0 <? e) eqn:E; [reflexivity|apply Z.ltb_ge in E; lia]. Qed.
+
+Lemma session_cookie_max_age cfg host signed parts :
+  make_session_cookie cfg host signed = Some parts ->
+  Forall (fun p => sc_maxage p = max_age_of (c_expire_ns cfg)) parts.
+Proof.
+  intro H. apply make_session_cookie_attrs in H. eapply Forall_impl; [|exact H]. intros p (_ & _ & Hm). exact Hm.
+Qed.
